@@ -628,6 +628,15 @@ for _pid in ("C04", "C12", "C20"):
     SPECS[_pid]["parts"].append(_request_path(True))
 SPECS["C04"]["parts"].append(_request_path(False))
 
+for _pid in ("C18", "C07"):
+    SPECS[_pid]["parts"].append(dict(name="redis-api", pkg="internal/cache", run="TestVerifRedisAPI", go="go", engines=("report", "choice"), gomaxprocs=2,
+                                     files={"harness/cache/zz_verif_redisapi_test.go": "internal/cache/zz_verif_redisapi_test.go"},
+                                     params={"quick": {"MAXLEN": 4}, "thorough": {"MAXLEN": 6}}, budget={"quick": 120, "thorough": 600}))
+
+# the router's own loading of domain-set files (app/router/domain_set.go, rule.go) sits between the files and the matcher
+SPECS["C11"]["parts"].append(dict([dict(p) for p in SPECS["C10"]["parts"] if p["name"] == "rules"][0], name="router-sets",
+                                  params={"quick": {"MAXLEN": 1}, "thorough": {"MAXLEN": 2}}, budget={"quick": 60, "thorough": 300}))
+
 # --------------------------------------------------------------------------------------------
 # Properties not (yet) claimed. Kept current: every property without a SPECS entry must be here.
 NOT_APPLICABLE = {
